@@ -560,3 +560,12 @@ Proof.
   match goal with H1 : str_eqb (tp_conv t) c = true, H2 : str_eqb (tp_bits t) b = true |- _ =>
     apply str_eqb_spec in H1; apply str_eqb_spec in H2; rewrite H1, H2; reflexivity end.
 Qed.
+
+(* `oneof=` with blanks and quoted options: the options are what the annotation wrote *)
+Example demo_oneof_rules :
+  parse_rule (s "oneof=abc xyz") = ROneof [s "abc"; s "xyz"] /\
+  parse_rule (s "oneof='abc' 'x y'") = ROneof [s "abc"; s "x y"] /\
+  run_rules rule_on_value (rules_of (s "required,oneof=abc def ghi")) (VStr (s "def")) = Some true /\
+  run_rules rule_on_value (rules_of (s "oneof='abc' 'x y'")) (VStr (s "x y")) = Some true /\
+  run_rules rule_on_value (rules_of (s "oneof=abc xyz")) (VStr (s "abcxyz")) = Some false.
+Proof. vm_compute. repeat split; reflexivity. Qed.
